@@ -21,10 +21,15 @@ def default_context(project):
     """the YAML dict of the context named `default` (it need not be the first one written, nor be in the first document)"""
     for path, docs in project["files"].items():
         for doc in docs:
-            for c in doc.get("contexts") or []:
-                if c.get("name") == "default":
+            if not isinstance(doc, dict) or not isinstance(doc.get("contexts"), list):
+                continue
+            for c in doc["contexts"]:
+                if isinstance(c, dict) and c.get("name") == "default":
                     return c
-    return project["files"]["laze-project.yml"][0]["contexts"][0]
+    root = project["files"]["laze-project.yml"][0]
+    if isinstance(root, dict) and isinstance(root.get("contexts"), list) and root["contexts"] and isinstance(root["contexts"][0], dict):
+        return root["contexts"][0]
+    return {}            # a (mutated) project without a usable context list: edits to the returned dict are dropped
 
 
 def deps_of(mod):
